@@ -73,6 +73,18 @@ func c10RunParentImplicit(t *testing.T, r *verifrt.Run, rng *rand.Rand, cases in
 			_ = ctrl.Shutdown(ctx)
 			continue
 		}
+		// what the restarts themselves told the parent (an external Restart stops the
+		// running child first and may or may not announce that stop): sampled behind a
+		// round trip through the parent's FIFO mailbox, then only the difference counts
+		fl0 := make(chan struct{})
+		_ = Tell(ctx, parent, &c10Cmd{Cmd: "watch", Target: ctrl, Done: fl0, op: &c10WatchOp{Watcher: "parent", Kind: "watch", Mode: "turn"}})
+		select {
+		case <-fl0:
+		case <-time.After(20 * time.Second):
+			r.Inconclusive("C10 parent-implicit: parent flush (before termination) not executed: %s", key)
+			continue
+		}
+		beforeTermination, _ := parentAct.count(childPath)
 		// the control watcher registers explicitly after the restarts
 		done := make(chan struct{})
 		op := &c10WatchOp{Watcher: "control", Kind: "watch", Mode: "turn"}
@@ -107,7 +119,7 @@ func c10RunParentImplicit(t *testing.T, r *verifrt.Run, rng *rand.Rand, cases in
 		// the control's Terminated bounds the delivery: both are sent by the same
 		// freeWatchers pass; then a round trip through the parent flushes its mailbox
 		verifrt.WaitUntil(20*time.Second, func() bool { n, _ := ctrlAct.count(childPath); return n >= 1 })
-		verifrt.WaitUntil(5*time.Second, func() bool { n, _ := parentAct.count(childPath); return n >= 1 })
+		verifrt.WaitUntil(5*time.Second, func() bool { n, _ := parentAct.count(childPath); return n >= beforeTermination+1 })
 		// one more turn of the parent behind whatever is queued (FIFO mailbox)
 		fl := make(chan struct{})
 		_ = Tell(ctx, parent, &c10Cmd{Cmd: "watch", Target: ctrl, Done: fl, op: &c10WatchOp{Watcher: "parent", Kind: "watch", Mode: "turn"}})
@@ -126,13 +138,13 @@ func c10RunParentImplicit(t *testing.T, r *verifrt.Run, rng *rand.Rand, cases in
 		if gotCtrl != 1 {
 			r.Violation(fmt.Sprintf("terminated-count:got=%d:want=1:%s:control-after-restarts", gotCtrl, path), map[string]any{"case": key})
 		}
-		// an external Restart of the running child stops it first: that stop is a
-		// termination of its own (the restart-then-kill path of the main workload
-		// counts it the same way) and the re-attach registers the parent again
+		// only the termination itself is judged: exactly one Terminated for it, whatever
+		// the restarts before it announced (at most one per external Restart)
 		wantParent := 1
-		if extRestart {
-			wantParent = 2
+		if beforeTermination > 1 || (beforeTermination == 1 && !extRestart) {
+			r.Violation(fmt.Sprintf("terminated-before-termination:got=%d:%s:parent-implicit", beforeTermination, path), map[string]any{"case": key, "note": "the parent received Terminated(child) although the child had not terminated (supervised in-place restarts do not stop the child; an external Restart stops it once)"})
 		}
+		gotParent -= beforeTermination
 		if gotParent != wantParent {
 			how := "no-restart"
 			if restarts > 0 {
